@@ -147,6 +147,24 @@ def file_roundtrip(line):
         raise Violation('.p8 write/read turned line %s into %s' % (show(line), show(code)), case, 'file')
 
 
+def file_roundtrip_longstring(body):
+    """Bytes inside a long string - incl. CR, LF, CR LF - through an actual .p8 write and read."""
+    from vlib import cartgen
+    from pico8.game.formatter.p8 import P8Formatter
+    case = {'longstring': bytes(body)}
+    code = b's=[==[' + body + b']==]\n'
+    g = cartgen.make_game(bytes(0x4300), code=code)
+    buf = io.BytesIO()
+    try:
+        P8Formatter.to_file(g, buf)
+        g2 = P8Formatter.from_file(io.BytesIO(buf.getvalue()))
+        back = b''.join(g2.lua.to_lines())
+    except Exception as e:
+        raise Violation('.p8 write/read of a long string holding %s raised %r' % (show(body), e), case, 'file')
+    if back != code:
+        raise Violation('.p8 write/read changed a long string: wrote %s, read %s' % (show(code), show(back)), case, 'file')
+
+
 def part_file(ctx):
     # bytes that cannot sit inside a one-line comment are left out: LF ends the line, CR would be
     # (legitimately) re-lexed; everything else must survive
@@ -157,16 +175,32 @@ def part_file(ctx):
         file_roundtrip(line)
         ctx.stats.case(b'file' + line, nontriv(line), {'file_line': show(line, 60)}, ['file'])
     ctx.hyp('file', strat, body, max_examples=150 if ctx.quick else 1500)
-    if ctx.shard == 0:
+    every = [b for b in range(256) if b != 0x5d]          # ']' would close the long string
+
+    def body2(bs):
+        file_roundtrip_longstring(bs)
+        ctx.stats.case(b'ls' + bs, nontriv(bs), {'file_longstring': show(bs, 60)}, ['file_longstring'])
+    ctx.hyp('file_longstring', st.lists(st.one_of(st.sampled_from(every), st.sampled_from([0x0d, 0x0a, 0x0b, 0x0c, 0x85])),
+                                        min_size=1, max_size=30).map(bytes), body2,
+            max_examples=150 if ctx.quick else 1500)
+    if True:
         for b in alphabet:
+            if b % ctx.nshards != ctx.shard:
+                continue
             file_roundtrip(bytes((b,)))
             ctx.stats.case(b'file1' + bytes((b,)), nontriv(bytes((b,))), None, ['file_single'])
+        for b in every:
+            if b % ctx.nshards != ctx.shard:
+                continue
+            for ctxt in (b'a%sz', b'%s', b'a%s', b'%s\nz', b'a\r%s'):
+                file_roundtrip_longstring(ctxt % bytes((b,)))
+            ctx.stats.case(b'ls1' + bytes((b,)), nontriv(bytes((b,))), None, ['file_longstring_single'])
 
 
 def parts(tier):
     if tier == 'quick':
-        return [('pairs', part_pairs, 4), ('long', part_long, 1), ('file', part_file, 1)]
-    return [('pairs', part_pairs, 8), ('long', part_long, 6), ('file', part_file, 2)]
+        return [('pairs', part_pairs, 4), ('long', part_long, 1), ('file', part_file, 4)]
+    return [('pairs', part_pairs, 8), ('long', part_long, 4), ('file', part_file, 4)]
 
 
 def replay(case):
@@ -174,6 +208,8 @@ def replay(case):
         table_invariants()
     elif 'line' in case:
         file_roundtrip(case['line'])
+    elif 'longstring' in case:
+        file_roundtrip_longstring(case['longstring'])
     else:
         roundtrip(case['bytes'])
 
